@@ -64,8 +64,11 @@ EVIDENCE_NOTES = [
     "known finding async-capacity-unusable follows the pattern of DESIGN.md 3.2: in_known_class A = (usable capacity 0); "
     "async_destroy_returns_refuted: in the class no schedule makes destroy return (universal invariant) plus the concrete "
     "retry-loop witness; async_destroy_returns_partial: outside the class every refusal of the sentinel leaves messages for "
-    "the writer thread, which has not exited and has no lost wake-up (safety core; termination under a fair scheduler is "
-    "not formalised; the scheduler runs check it: no LIVELOCK/DEADLOCK outside the class).",
+    "the writer thread, which has not exited and has no lost wake-up (safety core); async_destroy_returns_fair "
+    "(C16/ProofsFair.v, scheme of C14/ProofsFair.v): outside the class destroy returns under EVERY fair schedule (rounds "
+    "scheduling the writer thread and every producer at least once) within G rounds, G an explicit measure no step "
+    "increases and every enabled step decreases except the sentinel retry against a full queue; "
+    "async_destroy_clause_in_full combines it with async_destroy_drains and async_no_leak_on_full.",
     "log_no_oob_refuted_before_repair and async_leak_and_hang_before_repair record the defects of the code as first found; "
     "the model the implementation is compared with is the repaired one (commits 59dfdd3, ad89fa8, 0e247d7, cd82dd8).",
     "quick tier: the extracted handler_write is index-level (quadratic in unary nat), so the quick tier uses a coarse length "
